@@ -451,6 +451,30 @@ def map_once(ctx: Ctx) -> None:
         )
         if ok:
             guards.add(why)
+    # the delivered-state update itself is unconditional once a twin exists: marking the twin
+    # only when it is still pending leaves a twin that finished in the same round unmarked
+    for cont in sorted(guards):
+        adds = [
+            n
+            for n in d.own_nodes()
+            if isinstance(n, ast.Call) and isinstance(n.func, ast.Attribute) and n.func.attr in MUTATORS_GROW and isinstance(n.func.value, ast.Name) and n.func.value.id == cont and cfg.has(n) and cfg.in_loop(cfg.node_of(n), m.fin_loop.id)
+        ]
+        for a_ in adds:
+            extra = []
+            for t, pol, b in cfg.branch_conditions(cfg.node_of(a_)):
+                if not cfg.in_loop(b, m.fin_loop.id):
+                    continue
+                for fact, fp in conjuncts(t, pol):
+                    if isinstance(fact, ast.Compare) and isinstance(fact.ops[0], (ast.In, ast.NotIn)) and isinstance(fact.comparators[0], ast.Name) and fact.comparators[0].id == m.pending:
+                        extra.append(("" if fp else "not ") + unparse(fact, 40))
+            ctx.ob(
+                d,
+                a_,
+                not extra,
+                f"`{unparse(a_, 40)}` marks the twin as delivered whenever a twin exists"
+                + ("" if not extra else f" — only under `{extra[0]}`: a twin that finished in the same wait round is no longer in `{m.pending}`, stays unmarked and is delivered again"),
+                sel="once:mark-unconditional",
+            )
     # a superseded twin is not *handled* at all: its (stale) failure must not be raised either —
     # the same membership check guards every raise of the finished loop
     for r in cfg.stmts(ast.Raise):
